@@ -111,6 +111,12 @@ def wRatioGrad (ak dak Rk dRk : List F) : F :=
   if 0 < sumF ak then (-(wRatio ak Rk) * sumF dak + (dot dak Rk + dot ak dRk)) / sumF ak
   else -(wRatio ak Rk) * sumF dak + (dot dak Rk + dot ak dRk)
 
+/-- `SourceWeightedPDFRatio.get_gradient` with its early exit: `return 0` iff the yield gradient is the int `0`
+(`fitparam_id not in a_jk_grads`, flag `yDep = false`) **and** the wrapped PDF ratio returned the int `0`
+(flag `rDep = false`); otherwise the quotient-rule expression -/
+def wRatioGradCode (yDep rDep : Bool) (ak dak Rk dRk : List F) : F :=
+  if !yDep && !rDep then 0 else wRatioGrad ak dak Rk dRk
+
 /-! ### weights -/
 
 /-- `a_jk[ds] = src_weights * Y` (and, with `dY`, `a_jk_grads[p][ds] = src_weights * Yg_grads[p]`) -/
@@ -191,6 +197,11 @@ structure Leaf (F : Type) where
 /-- one dataset of the stacked analysis -/
 structure DSIn (F : Type) where
   N : Nat
+  /-- factor A of the PDF ratio has the local parameter 0 in its `param_names` (else it is parameter-free and
+  its `get_gradient` returns the int `0`) -/
+  parA : Bool
+  /-- the same for factor B and local parameter 1 -/
+  parB : Bool
   Y : List F                 -- K
   dY : List (List F)         -- K × L
   ev : List (List (Leaf F))  -- nSel × K
@@ -200,10 +211,19 @@ def leafRatio (l : Leaf F) : F := l.rA * l.rB
 
 /-- its derivative w.r.t. fit parameter `p`: the stub factors sum their local derivative where
 `gp = p+1`, the product rule is `PDFRatioProduct.get_gradient` -/
-def leafGrad (gp : List (List Int)) (gpRow : List Int) (p : Nat) (l : Leaf F) : F :=
-  let dA := if gpRow.getD 0 0 = (p : Int) + 1 then l.dA else 0
-  let dB := if gpRow.getD 1 0 = (p : Int) + 1 then l.dB else 0
-  productGrad (dependsOn gp 0 p) (dependsOn gp 1 p) l.rA l.rB dA dB
+def leafGrad (parA parB : Bool) (gp : List (List Int)) (gpRow : List Int) (p : Nat) (l : Leaf F) : F :=
+  let dA := if parA && decide (gpRow.getD 0 0 = (p : Int) + 1) then l.dA else 0
+  let dB := if parB && decide (gpRow.getD 1 0 = (p : Int) + 1) then l.dB else 0
+  productGrad (parA && dependsOn gp 0 p) (parB && dependsOn gp 1 p) l.rA l.rB dA dB
+
+/-- does the product ratio return an array (not the int `0`) for fit parameter `p`:
+`is_global_fitparam_a_local_param` over the `param_names` of either factor -/
+def ratioDep (parA parB : Bool) (gp : List (List Int)) (p : Nat) : Bool :=
+  (parA && dependsOn gp 0 p) || (parB && dependsOn gp 1 p)
+
+/-- `fitparam_id in a_jk_grads`: some source's yield has a gradient key for fit parameter `p` (the yields know both
+local parameters) -/
+def yieldDep (gp : List (List Int)) (p : Nat) : Bool := dependsOn gp 0 p || dependsOn gp 1 p
 
 /-- the fit-parameter ids other than ns, in order (`fitparam_ids[p_mask]`) -/
 def otherIds (nFit nsIdx : Nat) : List Nat := (List.range nFit).filter (· != nsIdx)
@@ -231,8 +251,8 @@ def stDS (ps : List Nat) (gp : List (List Int)) (W : List F) (d : DSIn F) : DS F
     Xs := d.ev.map (fun row => xOfRatio d.N (wRatio ak (row.map leafRatio)))
     dXs := ps.map (fun p =>
       d.ev.map (fun row =>
-        dxOfDRatio d.N (wRatioGrad ak (stDaRow gp W d p) (row.map leafRatio)
-          (List.zipWith (fun g l => leafGrad gp g p l) gp row)))) }
+        dxOfDRatio d.N (wRatioGradCode (yieldDep gp p) (ratioDep d.parA d.parB gp p) ak (stDaRow gp W d p)
+          (row.map leafRatio) (List.zipWith (fun g l => leafGrad d.parA d.parB gp g p l) gp row)))) }
 
 def stDss (nFit nsIdx : Nat) (gp : List (List Int)) (W : List F) (ds : List (DSIn F)) : List (DS F) :=
   ds.map (stDS (otherIds nFit nsIdx) gp W)
